@@ -19,7 +19,7 @@ ASSUMPTIONS = ['unitless (valueunit None) spectra stored in m / um / nm / angstr
                "Simpson's rule is exercised only with uniformly spaced centres and data, as the property scopes it"]
 PLAN = {'quick': {'gen': 8}, 'thorough': {'gen': 16, 'tests': 1, 'docs': 1}}
 REQUIRED_BUCKETS = ['bin:narrow-line', 'crop:outside-data', 'bin:integer-centres', 'values:small-int', 'bin:zero-spectrum', 'integrate:bright-band-below-bounds', 'wave:integer-dtype', 'unit:m', 'unit:um', 'unit:nm', 'unit:angstrom', 'bin:unit-same', 'bin:unit-differs', 'integrate:trapz', 'integrate:simps', 'bin:trapz', 'bin:simps', 'ends:symmetric', 'ends:inside',
-                    'preserve:True', 'preserve:False', 'grid:nonuniform', 'op:crop', 'op:trim', 'op:pad', 'op:append', 'value:narrow-dtype', 'resample:short-narrow', 'value:signed', 'bin:narrow-float-centres',
+                    'preserve:True', 'preserve:False', 'grid:nonuniform', 'op:crop', 'op:trim', 'op:pad', 'op:append', 'value:narrow-dtype', 'resample:short-narrow', 'value:signed', 'bin:narrow-float-centres', 'bin:fill-pair', 'wave:narrow-float', 'integrate:wave-narrow-float',
                     'op:resample', 'op:raised', 'history:len>=6']
 REQUIRED_ANCHORS = ['probe:Spectrum.crop', 'probe:Spectrum.trim', 'probe:Spectrum.pad', 'probe:Spectrum.append',
                     'probe:Spectrum.resample', 'anchor:Spectrum.integrate', 'anchor:Spectrum.bin', 'anchor:Spectrum.ends']
@@ -196,8 +196,7 @@ def workload(ctx, lentil):
         if rng.random() < 0.25 and not (i % 5 == 2 and m >= 6):
             lo = hi = None
         if lo is not None and not np.any((w >= lo) & (w <= hi)):
-            ctx.skip('integrate: no sample inside the bounds')
-            continue
+            ctx.bucket('integrate:no-sample-inside-bounds')
         try:
             I1 = mk(w, v1).integrate(lo, hi, method)
             I2 = mk(w, v2).integrate(lo, hi, method)
@@ -209,14 +208,16 @@ def workload(ctx, lentil):
         ctx.close('integrate:linear', np.array([I12]), np.array([a * I1 + b * I2]), 1e-10, f'integrate|linear|{method}',
                   'integration is not linear in the values', desc, scale=sc)
         if method == 'trapz':
-            # exact for piecewise-linear data between the first and last selected sample
-            L = w[0] if lo is None else lo
-            H = w[-1] if hi is None else hi
-            sel = w[(w >= L) & (w <= H)]
-            if sel.size >= 2:
-                ref = sm.integral_pl(w, v1, sel[0], sel[-1])
-                ctx.close('integrate:exact-pl', np.array([I1]), np.array([ref]), 1e-11, 'integrate|exact',
-                          'trapezoid integration is not exact for piecewise-linear data', desc, scale=abs(ref) + 1e-300)
+            # exact for piecewise-linear data over the requested interval (bounds that fall between two samples cut the
+            # interval they fall in; beyond the data there is nothing to integrate)
+            L = w[0] if lo is None else max(lo, w[0])
+            H = w[-1] if hi is None else min(hi, w[-1])
+            if H > L:
+                ref = sm.integral_pl(w, v1, L, H)
+                between = lo is not None and not at_samples
+                ctx.close('integrate:exact-pl', np.array([I1]), np.array([ref]), 1e-11, 'integrate|exact' + ('|bounds-between-samples' if between else ''),
+                          'trapezoid integration is not exact for piecewise-linear data over the requested interval', desc,
+                          scale=abs(ref) + float(np.max(np.abs(v1))) * (H - L) * 1e-3 + 1e-300)
             # additive over adjacent intervals meeting at a sample point
             j0, jm, j1 = sorted(rng.choice(m, 3, replace=False))
             sp = mk(w, v1)
@@ -225,6 +226,26 @@ def workload(ctx, lentil):
             ctx.close('integrate:additive', np.array([parts]), np.array([whole]), 1e-11, 'integrate|additive',
                       'integration is not additive over adjacent intervals that meet at a sample point', desc,
                       scale=abs(whole) + 1e-300)
+    # ---- wavelength grids held in single / half precision: the same numbers as doubles, the same integral ---------------------
+    for i in range(max(6, n // 10)):
+        wf = [np.float32, np.float16][i % 2]
+        m = int(rng.integers(3, 12))
+        wn = np.sort(rng.uniform(300, 2000, size=m)).astype(wf)
+        if np.any(np.diff(wn.astype(float)) <= 0):
+            continue
+        vv = rng.uniform(0.5, 3, size=m)
+        ctx.case({'integrate-narrow-wave': np.dtype(wf).name, 'n': m}, ['integrate:wave-narrow-float'])
+        try:
+            for mth in ('trapz', 'simps'):
+                lo_, hi_ = float(wn[0]) + 0.37 * float(wn[1] - wn[0]), float(wn[-1]) - 0.41 * float(wn[-1] - wn[-2])
+                for bounds in ((None, None), (lo_, hi_)):
+                    Ia = float(S(wn.copy(), vv.copy()).integrate(bounds[0], bounds[1], mth))
+                    Ib = float(S(wn.astype(float), vv.copy()).integrate(bounds[0], bounds[1], mth))
+                    ctx.close('integrate:exact-pl', np.array([Ia]), np.array([Ib]), 1e-12, f'integrate|wave-narrow-float|{mth}',
+                              'the integral over a wavelength grid held in single / half precision differs from that over the same numbers as doubles',
+                              {'dtype': np.dtype(wf).name, 'method': mth, 'bounds': list(bounds)}, scale=abs(Ib) + 1e-300)
+        except Exception as e:
+            ctx.check(False, 'integrate:exact-pl', f'integrate|wave-narrow-float|raises={type(e).__name__}', str(e), {'dtype': np.dtype(wf).name})
     # ---- bin -------------------------------------------------------------------------------------------
     for i in range(n):
         method = 'trapz' if rng.random() < 0.6 else 'simps'
@@ -261,8 +282,13 @@ def workload(ctx, lentil):
                  + ([] if uni_data else ['grid:nonuniform']))
         fp_sp = probe.fingerprint(sp)
         if preserve:
-            with probe.quiet():
-                tot = S(w, v, waveunit=u_c).integrate(np.min(c), np.max(c), method=method)
+            if method == 'trapz':
+                # the spectrum's integral over the span of the centres (piecewise-linear data, whatever the span's ends fall on)
+                Lc, Hc = max(float(np.min(c)), float(w[0])), min(float(np.max(c)), float(w[-1]))
+                tot = sm.integral_pl(w, v, Lc, Hc) if Hc > Lc else 0.0
+            else:
+                with probe.quiet():
+                    tot = S(w, v, waveunit=u_c).integrate(np.min(c), np.max(c), method=method)
             if not np.isfinite(tot) or abs(tot) < 1e-9 * sm.wave_factor('nm', u_c):
                 ctx.skip('bin: zero power inside the centres (0/0)')
                 continue
@@ -270,6 +296,11 @@ def workload(ctx, lentil):
             with np.errstate(all='ignore'):
                 if u_c == 'nm' and rng.random() < 0.5:
                     bins = sp.bin(c, interp_method=method, ends=ends, preserve_power=preserve)
+                elif i % 4 == 1:
+                    # the documented two-element fill value (below / above the data) in every array-like form; zeros, i.e. the default
+                    ctx.bucket('bin:fill-pair')
+                    bins = sp.bin(c, interp_method=method, ends=ends, preserve_power=preserve, waveunit=u_c,
+                                  fill_value=[(0, 0), [0, 0], np.array([0., 0.])][(i // 4) % 3])
                 else:
                     bins = sp.bin(c, interp_method=method, ends=ends, preserve_power=preserve, waveunit=u_c)
         except Exception as e:
@@ -296,10 +327,7 @@ def workload(ctx, lentil):
             else:
                 edges = np.concatenate([[c[0]], mids, [c[-1]]])
             ref = np.array([sm.integral_pl(w, v, edges[k], edges[k + 1]) for k in range(nb)])
-            if preserve:
-                # 'inside' ends: sum of exact bins = exact integral over [c0, cN]; lentil normalises to the trapezoid
-                # integral over the samples inside that span, which differs unless c0, cN are samples -> compare shape only
-                ref = ref * (tot / ref.sum())
+            # ('inside' ends: the exact bins already sum to the exact integral over [c0, cN], so power preservation changes nothing)
             ctx.close('bin:exact-linear', bins, ref, 1e-10, f'bin|exact-linear|{ends}',
                       'bins of a spectrum that is linear across each bin are not the exact integrals over the bins', desc,
                       scale=float(np.max(np.abs(ref))))
@@ -434,7 +462,7 @@ def workload(ctx, lentil):
     for i in range(ctx.count(8, 40)):
         m = 1 + i % 3
         w = np.sort(rng.uniform(350, 900, size=m))
-        dt = [np.float32, np.float16, np.float64, np.uint8, np.int32][i % 5]
+        dt = [np.float32, np.float16, np.float64, np.uint8, np.int32, np.longdouble][i % 6]
         v = rng.uniform(0.2, 1.0, size=m)
         v = np.round(v * 200).astype(dt) if np.dtype(dt).kind in 'iu' else v.astype(dt)
         extra = rng.uniform(300, 950, size=int(rng.integers(1, 5)))
@@ -464,6 +492,13 @@ def workload(ctx, lentil):
             v = v[:w.size]
             m = int(w.size)
             ctx.bucket('wave:integer-dtype')
+        if i % 5 == 1 and wdt is None:
+            # wavelength column in single / half precision (whole numbers: exact in either type)
+            wf = [np.float32, np.float16][(i // 5) % 2]
+            w = np.unique(np.round(w)).astype(wf)
+            v = v[:w.size]
+            m = int(w.size)
+            ctx.bucket('wave:narrow-float')
         if i % 6 == 1:
             # a difference / background-subtracted spectrum: negative wings and dips (the relative tolerance of trim refers to the
             # largest value, and only samples ABOVE it count)
